@@ -70,6 +70,32 @@ def random_mark(sch, rnd, g):
     return sch.schema.marks[n].create(json.loads(a))
 
 
+def seam_mark(sch, rnd, g, tk, n):
+    """(from, to, mark) across a seam: two adjacent text units whose mark sets differ, and a
+    mark of a type one side carries (other attributes, or one that excludes the difference), the
+    range ending at the ends of the two runs or a little inside / beyond them.  Afterwards the
+    two sides may have equal markup and must then be one text node."""
+    seams = [k for k in range(len(tk) - 1) if tk[k][0] == "T" and tk[k + 1][0] == "T" and tk[k][2] != tk[k + 1][2]]
+    if not seams:
+        return None
+    k = rnd.choice(seams)
+    cand = sorted({x[0] for x in tk[k][2] if x not in tk[k + 1][2]} | {x[0] for x in tk[k + 1][2] if x not in tk[k][2]})
+    if not cand:
+        return None
+    mn, at = g.mark(rnd.choice(cand))
+    m = sch.schema.marks[mn].create(json.loads(at))
+    # the runs of equally marked text on both sides of the seam
+    lo = k
+    while lo > 0 and tk[lo - 1][0] == "T" and tk[lo - 1][2] == tk[k][2]:
+        lo -= 1
+    hi = k + 1
+    while hi + 1 < len(tk) and tk[hi + 1][0] == "T" and tk[hi + 1][2] == tk[k + 1][2]:
+        hi += 1
+    a = lo if rnd.random() < 0.5 else rnd.randint(max(0, lo - 2), k)
+    b = hi + 1 if rnd.random() < 0.5 else rnd.randint(k + 2, min(n, hi + 3))
+    return a, b, m
+
+
 def node_starts(tk):
     """Positions at which a non-text node starts."""
     return [i for i, t in enumerate(tk) if t[0] in ("O", "L")]
@@ -183,6 +209,10 @@ def gen_step(sch, rnd, g, d, p, tk, prof, slices, kind=None):
         if m is None:
             return gen_step(sch, rnd, g, d, p, tk, prof, slices, "replace")
         a, b = pair()
+        if kind == "addMark" and rnd.random() < 0.35:
+            sm = seam_mark(sch, rnd, g, tk, n)
+            if sm is not None:
+                a, b, m = sm
         return (AddMarkStep if kind == "addMark" else RemoveMarkStep)(a, b, m), kind
 
     if kind in ("addNodeMark", "removeNodeMark"):
